@@ -542,6 +542,58 @@ def run_selection(ctx):
     ctx.cov["selection"] = {"grids": names, "index_kinds": [n for n, _ in INDEXES + EMPTY_INDEXES]}
 
 
+def run_centre_forms(ctx):
+    """Forms of the centre argument (added after seeded change C11-I, which truncated a centre handed over in an integer
+    dtype): a centre with whole-number coordinates given as an int64 / int32 array, a list, a tuple (a Python / NumPy int
+    for one-dimensional grids) gives exactly the local grid of the same centre in floats, for every grid kind."""
+    for kind in KINDS:
+        g = make_grid(kind, ctx.seed)
+        pts = np.asarray(g.points, dtype=float)
+        dim = 1 if pts.ndim == 1 else pts.shape[1]
+        w = np.asarray(g.weights, dtype=float)
+        base = np.round(pts.reshape(len(pts), -1).mean(axis=0)).astype(int)
+        for shift in ([0, 0, 0], [1, -1, 0], [0, 1, -1]):
+            ic = base + np.array(shift)[:dim]
+            fc = ic.astype(float)
+            if dim == 1:
+                forms = [("int", int(ic[0])), ("int64", np.int64(ic[0])), ("int32", np.int32(ic[0]))]
+                fcen = np.float64(fc[0])
+            else:
+                forms = [("int64", ic.astype(np.int64)), ("int32", ic.astype(np.int32)), ("list", [int(v) for v in ic]), ("tuple", tuple(int(v) for v in ic))]
+                fcen = fc
+            for r in (0.75, 1.3, 2.6):
+                try:
+                    with warnings.catch_warnings():
+                        warnings.simplefilter("ignore")
+                        want = g.get_localgrid(fcen, r)
+                except Exception as exc:
+                    ctx.violation(f"centre-form:{kind}:float-centre-raised:{type(exc).__name__}", f"{kind}: get_localgrid({fc.tolist()}, {r}): {exc}",
+                                  {"route": "centre-forms", "kind": kind})
+                    continue
+                bad = lambda key, what, **det: ctx.violation(key, f"{kind}: {what}", {"route": "centre-forms", "kind": kind, "centre": ic.tolist(), "radius": r})
+                ctx.count(section="centre-forms")
+                check_local(want, pts, w, fcen, r, bad, f"centre-form:{kind}:float")
+                for fname, c in forms:
+                    ctx.count(section="centre-forms")
+                    case = {"route": "centre-forms", "kind": kind, "centre": ic.tolist(), "form": fname, "radius": r}
+                    try:
+                        with warnings.catch_warnings():
+                            warnings.simplefilter("ignore")
+                            got = g.get_localgrid(c, r)
+                    except Exception as exc:
+                        if fname in ("list", "tuple") and isinstance(exc, (AttributeError, TypeError, ValueError)):
+                            ctx.inadm(section="centre-forms")   # sequences are not among the documented forms (np.ndarray / float)
+                            continue
+                        ctx.violation(f"centre-form:{kind}:raised:{type(exc).__name__}", f"{kind}: get_localgrid(centre {ic.tolist()} as {fname}, {r}) "
+                                      f"raised {type(exc).__name__}: {exc}; the same centre in floats is answered", case)
+                        continue
+                    ctx.nontrivial(("centre-forms", kind, tuple(shift), fname, r), section="centre-forms")
+                    if not np.array_equal(np.asarray(got.indices), np.asarray(want.indices)) or not np.array_equal(np.asarray(got.points), np.asarray(want.points)) \
+                            or not np.array_equal(np.asarray(got.weights), np.asarray(want.weights)):
+                        ctx.violation(f"centre-form:{kind}:differs-from-float-centre", f"{kind}: centre {ic.tolist()} given as {fname}, radius {r}: "
+                                      f"{len(np.asarray(got.indices))} points, the same centre in floats gives {len(np.asarray(want.indices))} (or other points)", case)
+
+
 def run(ctx):
     depth = 5 if ctx.thorough else 4
     for kind in KINDS:
@@ -553,6 +605,7 @@ def run(ctx):
                         twice_every=7, fresh_every=0, section=f"history-edit-local:{kind}")
     ctx.guarded("selection", run_selection, ctx)
     ctx.guarded("exact-surface", run_exact_surface, ctx)
+    ctx.guarded("centre-forms", run_centre_forms, ctx)
     ctx.cov["radii"] = [repr(r) for r in RADII]
     ctx.cov["depth_bound"] = depth
     ctx.exhaustive = True
@@ -563,6 +616,8 @@ def replay(ctx, case):
         return run_selection(ctx)
     if case.get("route") == "exact":
         return run_exact_surface(ctx)
+    if case.get("route") == "centre-forms":
+        return run_centre_forms(ctx)
     if case.get("route") == "select":
         res = WorkerResult(section="selection")
         _select_case(case["grid"], case["index"], ctx.seed, res)
